@@ -438,7 +438,7 @@ class Flow:
         t = self.b.blocks[bb].term
         a = None
         if t.k == "switch":
-            a = {"bb": bb, "test": self.describe(t.discr), "targets": list(t.targets), "otherwise": t.otherwise, "ty": t.j["discr_ty"]}
+            a = {"bb": bb, "test": self.describe(t.discr, depth=10), "targets": list(t.targets), "otherwise": t.otherwise, "ty": t.j["discr_ty"]}
         self._atoms[bb] = a
         return a
 
@@ -480,9 +480,9 @@ def fmt_desc(d):
 
 def desc_mentions(d, pred):
     """does any leaf/inner node of a description satisfy pred(node)"""
-    if not isinstance(d, tuple):
+    if not isinstance(d, tuple) or not d:
         return False
-    if pred(d):
+    if isinstance(d[0], str) and pred(d):
         return True
     for x in d[1:]:
         if isinstance(x, tuple):
